@@ -66,6 +66,14 @@ def oracle(cases, impl):
             if miss < 0 or (miss > 0 and toks[0] != "rejected") or (miss == 0 and toks[0] != str(nk)):
                 fails.append(dict(name="partial-" + cid, case=dict(keys=c[3], impl=out),
                                   what="merged EXISTS over keys of which some belong to a partition not hosted here must be rejected as a whole (never a partial count); with all partitions hosted it must count every key: " + out))
+        elif kind == "Q":
+            if out != " ".join(["rejected/1/1 1/1"] * 5):
+                fails.append(dict(name="leak-" + cid, case=dict(tag=c[1], impl=out),
+                                  what="a merged command naming a key of a non-hosted partition must be rejected with no effect, and must not leak into the next merged command on the connection (want 5x 'rejected/1/1 1/1'): " + out))
+        elif kind == "S":
+            if out != "ok":
+                fails.append(dict(name="slowpart-" + cid, case=dict(tag=c[1], impl=out),
+                                  what="merged DEL over two partitions while one is busy answered a partial count: " + out))
         elif kind == "R":
             if out not in ("ok", "rejected"):
                 fails.append(dict(name="route-" + cid, case=dict(key=c[3], impl=out),
@@ -154,7 +162,7 @@ def run(ctx):
             hist_all[k] = hist_all.get(k, 0) + v
         for cid, c in cases.items():
             # non-trivial: non-empty key and pnum > 1 for hashes, key list with >= 2 keys for merges
-            if (c[0] == "H" and c[1] != "-" and c[2] not in ("0", "1")) or (c[0] in ("G", "D", "P") and "," in c[-1]) or c[0] in ("X", "R", "L", "E"):
+            if (c[0] == "H" and c[1] != "-" and c[2] not in ("0", "1")) or (c[0] in ("G", "D", "P") and "," in c[-1]) or c[0] in ("X", "R", "L", "E", "Q", "S"):
                 distinct.add(vlib.case_hash("\t".join(c)))
         ids = list(cases.keys())
         for cid in ids[:2] + ids[-2:]:
